@@ -105,11 +105,11 @@ CLAIMED = {
    text="Theorem C03_roundtrip_core_partial (ParseProof.roundtrip_core, by induction over the tree with a simulation of the parser's "
         "loops): a precedence-climbing parser of Python's expression grammar (Parse.pc) reads back EXACTLY the tree from the tokens the "
         "unparser prints, for every tree of any depth over the operator core - 13 binary, 4 unary, 2 boolean operators, comparison "
-        "chains of all 10 operators, conditional expressions, lambdas, assignment expressions, attribute / subscript (plain, tuple, slice) trailers, calls with "
+        "chains of all 10 operators, conditional expressions, lambdas with every parameter list (positional-only, positional, *args / bare *, keyword-only, **kwargs, defaults), assignment expressions, attribute / subscript (plain, tuple, slice) trailers, calls with "
         "positional / starred / keyword / double-starred arguments, list / tuple / set / dict displays with starred elements, list / set / "
         "dict comprehensions, groups, names, opaque literals - with the precedence ladder and slot table REGENERATED from the code (C03_context_* are the "
         "finite table facts: a changed precedence or slot breaks them); C03_is_not_ambiguity (`a is (not b)`); C03_paren_iff. PARTIAL: "
-        "generator expressions, index tuples containing slices, lambda parameters, f-strings, yield/await are outside the proved "
+        "generator expressions, index tuples containing slices, f-strings, yield/await are outside the proved "
         "core and are decided by CPython's parser on the exhaustive (parent,slot) x child compositions, every lambda signature, sampled "
         "depth-3 / deep / right-edge trees, standard-library expressions (support). The parser model is validated against ast.parse "
         "through CPython's tokenizer; the printer of the theorem is checked equal to the unparser model's tokens on every core tree.",
@@ -155,7 +155,7 @@ CLAIMED = {
         "defining namespace. C11_return_value: a call returns the value of the executed return or None (the C05 function-placement "
         "simulation). That equal `arguments` records bind calls identically for def and lambda is CPython's construction (trusted); the "
         "text-level signature round trip is decided by the oracle (inspect.signature, 20 call shapes, TypeError) over all 2700+ "
-        "parameter-list shapes (thorough) until the C03 parser theorem covers lambda signatures.",
+        "parameter-list shapes (thorough); that the printed lambda signature parses back to exactly that `arguments` record is part of the C03 round-trip theorem (Parse.MParams).",
    note=TRUST + "Annotations are erased and not modelled.",
    technique="Coq proof about the converter model (shape theorem + C05 simulation) + AST correspondence + call-binding oracle over the exhaustive parameter-shape matrix",
    ref="5/C11"),
